@@ -54,7 +54,10 @@ J_MIN = 0.05  # assumption guard: states with det F below this at a Gauss point 
 STRETCHES = (0.8, 1.0, 1.3)
 ROTS = ["R0", "R90", "Rgen", "R180"]
 
-ENERGY_MESHES = {"Q4x2": ("QUAD4", [2, 1]), "T3x2": ("TRI3", 1), "H8x2": ("HEXA8", [2, 1, 1]), "TET4x6": ("TETRA4", 1)}
+# T6x2 / Q8x2: second-order types whose stiffness and mass rules differ and whose strain varies inside an element (the energy a simulation
+# reports must be the potential of the internal forces it assembles: same rule)
+ENERGY_MESHES = {"Q4x2": ("QUAD4", [2, 1]), "T3x2": ("TRI3", 1), "H8x2": ("HEXA8", [2, 1, 1]), "TET4x6": ("TETRA4", 1), "T6x2": ("TRI6", 1),
+                 "Q8x2": ("QUAD8", [2, 1])}
 ENERGY_V0 = ["generic", "stretch", "spin"]
 ENERGY_DT = [0.01, 0.2]
 ENERGY_STRESS = ["gonzalez", "quadrature"]
@@ -416,7 +419,7 @@ def cases(tier, seed):
         for law in LAWS:
             if law != DEFAULT_LAW:
                 combos.append((law, "Q4x2", ["generic"]))
-        for mesh in ("T3x2", "H8x2", "TET4x6"):
+        for mesh in ("T3x2", "H8x2", "TET4x6", "T6x2", "Q8x2"):
             combos.append((DEFAULT_LAW, mesh, ["generic"]))
     for law, mesh, v0s in combos:
         for v0 in v0s:
